@@ -372,7 +372,7 @@ func c04Run(c *fw.Ctx, b fw.Batch) {
 						var a1, a2 string
 						pl2 := c04Payload{Kind: "tail-poison", Probe: c04Probe{Name: fmt.Sprintf("tail-%d", k), In: buf, Limit: lim}}
 						if c.Guard(key, func() any { return pl2 }, func() {
-							a1 = leafOf(lib.Detect(buf, lim))      // longer input, same examined header
+							a1 = leafOf(lib.Detect(buf, lim))       // longer input, same examined header
 							a2 = leafOf(lib.Detect(buf[:lim], lim)) // exact header, spare capacity holds the poison
 						}) {
 							c.Eval(2)
